@@ -175,6 +175,26 @@ static FWire c09(Reader& r) {
         for (size_t i=0;i<W.nlin();++i) for (size_t j=0;j<W.ncol();++j) { const SparseMatrix& C=W; o.push_back(exact(C(i,j))); }
         return FWire{o,{}};
     }
+    if (op==18) {
+        // file semantics of Sensors::load: labelled flag, ncol, n, labels (n), last column (n integers)
+        bool lab=r.n()!=0; size_t ncol=r.n(), n=r.n(); std::vector<size_t> ls; std::vector<ll> ws;
+        for (size_t k=0;k<n;++k) ls.push_back(r.n());
+        for (size_t k=0;k<n;++k) ws.push_back(r.z());
+        std::ostringstream txt;
+        for (size_t k=0;k<n;++k) {
+            if (lab) txt << "s" << ls[k] << " ";
+            txt << k << ".5 0.25 1.5";                               // first numeric token contains one '.'
+            for (size_t c=3;c+1<ncol;++c) txt << (c==5 ? " 1.0" : " 0.0");
+            if (ncol>3) txt << " " << ws[k] << ".0";
+            txt << "\n";
+        }
+        std::istringstream in(txt.str());
+        Sensors s; s.load(in);
+        SparseMatrix W=s.getWeightsMatrix();
+        Wire o{ST_OK,(ll)s.getNumberOfSensors()};
+        for (size_t i=0;i<W.nlin();++i) for (size_t j=0;j<W.ncol();++j) { const SparseMatrix& C=W; o.push_back(exact(C(i,j))); }
+        return FWire{o,{}};
+    }
     if (op==5) {
         size_t n=r.n(); std::vector<size_t> ls; std::vector<ll> ws;
         for (size_t k=0;k<n;++k) ls.push_back(r.n());
